@@ -15,6 +15,21 @@ func (v *FnVC) call(fr *frame, st *State, x ssa.CallInstruction) Val {
 	res := v.call1(fr, st, x)
 	// ghost observers of direct calls made by the function under verification
 	if fr.top {
+		if par, ok := x.Common().Value.(*ssa.Parameter); ok && !x.Common().IsInvoke() && x.Common().StaticCallee() == nil {
+			// a call through a function-typed parameter: called(p) / errSeen(p)
+			k := "param:" + par.Name()
+			st.ghost["called#"+k] = tTrue
+			sig := x.Common().Signature().Results()
+			if n := sig.Len(); n > 0 && isErrorType(sig.At(n-1).Type()) {
+				var ev Val = res
+				if n > 1 {
+					ev = res.(TupleV).E[n-1]
+				}
+				if iv, ok := ev.(IfaceV); ok {
+					st.ghost["errSeen#"+k] = v.sc.Define("ghost", Or(st.ghostGet("errSeen#"+k), Not(Eq(iv.Tag, tZero))))
+				}
+			}
+		}
 		if cal := x.Common().StaticCallee(); cal != nil {
 			k := FuncKey(cal)
 			st.ghost["called#"+k] = tTrue
@@ -79,6 +94,23 @@ func (v *FnVC) call1(fr *frame, st *State, x ssa.CallInstruction) Val {
 	}
 	callee := c.StaticCallee()
 	var bind []Val
+	if callee == nil && !c.IsInvoke() && (fr.top || fr.own) {
+		if nt, ok := types.Unalias(c.Value.Type()).(*types.Named); ok && v.w.Contracts.FuncValueNonNil[typeKey(nt)] {
+			for i, a := range args {
+				switch av := a.(type) {
+				case IfaceV:
+					o := v.addObl("PRE", fmt.Sprintf("%s:operand %d != nil", typeKey(nt), i), x.Pos(), reach, Not(Eq(av.Tag, tZero)), nil, "")
+					_ = o
+					v.sc.Assert(Implies(reach, Not(Eq(av.Tag, tZero))))
+				case Sc:
+					if _, isPtr := under(c.Args[i].Type()).(*types.Pointer); isPtr {
+						v.addObl("PRE", fmt.Sprintf("%s:operand %d != nil", typeKey(nt), i), x.Pos(), reach, Not(Eq(av.T, tZero)), nil, "")
+						v.sc.Assert(Implies(reach, Not(Eq(av.T, tZero))))
+					}
+				}
+			}
+		}
+	}
 	if callee == nil && !c.IsInvoke() {
 		if fv, ok := v.value(fr, c.Value).(FuncV); ok && fv.Fn != nil {
 			callee = fv.Fn
